@@ -221,4 +221,52 @@ def trigMroConflict (e : Order.EnumOracle) (env : Env) (fuel : Nat) (ops : List 
   | .ok out => (moduleTables out).any fun t => !Spec.Py.mroOK t
   | .error _ => false
 
+/-! ### The finding trigger C08-F4 (decidable, computed by the model)
+
+At an interface position that also gets sub-type classes (inline fragments / spreads on members) the field is
+annotated `Union[PosInterface, PosMember, …]`, every class of the union being generated from the SAME selection
+set.  A fragment on the interface that this selection set spreads is inherited by `PosInterface` only; the member
+classes are evaluated for the member type and unpack it.  An object of such a runtime type is then no instance of
+the fragment's class.  (Inside an operation the same shape also makes the operation unpack the fragment: C08-F1.) -/
+
+/-- the class-name lists of every `Union[…]` inside an annotation -/
+def annUnions : Ann → List (List String)
+  | .optional a => annUnions a
+  | .list a => annUnions a
+  | .disc a => annUnions a
+  | .union as => [as.filterMap fun a => match a with | .cls n => some n | _ => none]
+  | _ => []
+
+/-- a class generated for an abstract type: its `typename__` literal lists an abstract type name -/
+def isAbstractClass (env : Env) (c : ClassDecl) : Bool :=
+  c.fields.any fun f => f.py == typenameAlias && match f.ann with
+    | .literal vs => vs.any env.schema.isAbstract
+    | _ => false
+
+def findClass (cs : List ClassDecl) (n : String) : Option ClassDecl := cs.find? (·.name == n)
+
+/-- every class generated for the same selection set inherits the fragments the interface class inherits -/
+def siblingsInheritAlike (env : Env) (classes : List ClassDecl) (mixins : List String) : Bool :=
+  classes.all fun c => c.fields.all fun f => (annUnions f.ann).all fun names =>
+    match names with
+    | [] => true
+    | n0 :: rest =>
+      match findClass classes n0 with
+      | none => true
+      | some c0 =>
+        !isAbstractClass env c0 ||
+          rest.all fun ni =>
+            match findClass classes ni with
+            | none => true
+            | some ci => (c0.bases.filter fun b => (mixins.map pascal).contains b).all fun b => ci.bases.contains b
+
+def trigSiblingUnpacks (e : Order.EnumOracle) (env : Env) (fuel : Nat) (ops : List Operation) : Bool :=
+  match fragmentsModule e env fuel ops with
+  | .ok out =>
+    (out.ops.any fun g => !siblingsInheritAlike env g.out.classes g.out.st.mixins) ||
+      (match out.fragments with
+       | some fo => !siblingsInheritAlike env fo.classes (fo.deps.flatMap (·.2))
+       | none => false)
+  | .error _ => false
+
 end Ariadne.Fragments
